@@ -179,7 +179,7 @@ CHECKS = {
 
 # ---- entries proposed alongside the props packages (harness/props/<pkg>/config_entry.py define a dict named like the id)
 # packages whose entries the maintainer has integrated (an entry file of a package still being built is ignored)
-INTEGRATED = {"C02", "C11", "C06", "C09", "C10", "C13", "C14", "C16", "C17", "C19"}
+INTEGRATED = {"C02", "C11", "C20", "C06", "C09", "C10", "C13", "C14", "C16", "C17", "C19"}
 
 
 def _load_entries():
